@@ -78,7 +78,8 @@ impl Loops {
         let mut parts = msg.splitn(2, ' ');
         let cmd = parts.next().unwrap_or("");
         let name = parts.next().unwrap_or("").to_string();
-        let spawns = ["secoundary", "primary", "new-secoundary"].contains(&cmd) && !node.dbs.has_cluster_memeber(&name);
+        // (a node told about itself as a new secondary adds itself without a link)
+        let spawns = ["secoundary", "primary", "new-secoundary"].contains(&cmd) && !node.dbs.has_cluster_memeber(&name) && !(cmd == "new-secoundary" && name == node.addr);
         let before = node.ctx.links.lock().unwrap().len();
         let _ = self.sup_feed.try_send(msg);
         if let Some(d) = poll_once(&mut self.sup) {
